@@ -54,6 +54,11 @@ VALUES = [None, True, False, 0, 1, 2, 7, 12, 0.5, 1.5, 2.25, "s", "hello world",
 SCALARS_DISTINCT = [None, 2, 3, 7, 12, "s", "t", "hello"]
 
 
+# does the tree under test carry the repair of fixes/C08-reserved-parameter-names-v2.diff?  (decides which of the two
+# modelled bindings — `createFlowInstance` (repaired) or `createFlowInstanceAsIs` — the fn stream is compared with)
+REPAIRED = tr.repaired()
+
+
 def translate():
     return tr.run()
 
@@ -164,9 +169,15 @@ BASE_EV = [["flow_id", {"s": "f"}], ["flow_instance_uid", {"s": "(f)u1"}], ["sou
            ["source_head_uid", {"s": "h1"}], ["flow_hierarchy_position", {"s": "0.1"}]]
 
 
+def arg_key(name):
+    """`flow_argument_key` of the repaired tree: a named argument for a parameter called like an internal StartFlow
+    argument travels under "$<name>" (on an unrepaired tree that key is simply ignored by the binding)"""
+    return "$" + name if name in RESERVED else name
+
+
 def mk_fn(params, rets, pos, named, how, extra=(), drop=(), activated=False):
     ev = [[f"${i}", vj.enc(v)] for i, v in pos if v is not ...]
-    ev += [[k, vj.enc(v)] for k, v in named]
+    ev += [[arg_key(k), vj.enc(v)] for k, v in named]
     seen = {k for k, _ in ev}
     base = [kv for kv in BASE_EV if kv[0] not in drop]
     if activated:
@@ -592,7 +603,7 @@ def model_requests(case, obs):
     if "skip" in obs:
         return []
     if case["kind"] == "fn":
-        return [{"m": "C08.bind", "params": case["params"], "rets": case["rets"], "ev": case["ev"], "main": False}]
+        return [{"m": "C08.bind", "params": case["params"], "rets": case["rets"], "ev": case["ev"], "main": False, "asis": not REPAIRED}]
     if case["kind"] == "e2e":
         p = case["prog"]
         return [{"m": "C08.exec", "flows": p["flows"], "main": p["main"], "fuel": _fuel(p)}]
@@ -780,7 +791,7 @@ def oracle(case, obs):
         names = [p["name"] for p in case["params"]]
         try:
             exp = spec_bind(case["params"], [vj.dec(ev[f"${i}"]) for i in range(k)],
-                            {nm: vj.dec(ev[nm]) for nm in names if nm in ev and nm not in RESERVED})
+                            {nm: vj.dec(ev[arg_key(nm)]) for nm in names if arg_key(nm) in ev})
         except _NoExpectation:
             return None
         if obs["start"]["res"] != "ok":
@@ -840,9 +851,10 @@ def oracle(case, obs):
 
 
 def signature(case, obs, msg):
-    if case["kind"] == "fn" and _has_reserved(case["params"]):
+    # on a tree with the repair (flow_argument_key) the reserved-name region is ordinary: model and oracle apply in full
+    if not REPAIRED and case["kind"] == "fn" and _has_reserved(case["params"]):
         return "reserved-parameter-name"
-    if case["kind"] == "e2e" and any(_has_reserved(f["params"]) for f in case["prog"]["flows"]):
+    if not REPAIRED and case["kind"] == "e2e" and any(_has_reserved(f["params"]) for f in case["prog"]["flows"]):
         return "reserved-parameter-name"
     if case["kind"] == "probe" and case["tmpl"].startswith("inplace-"):
         return "inplace-mutation-of-passed-container"
